@@ -125,7 +125,9 @@ STR_PUNCT = ['a, b', ', ', 'x, ', ', x', ')', '(', ')(', '()', 'f(x, y)', ']', '
              ' lead', 'trail ', 'a  b', '),', ', )', '), (', 'a)', '(b', "it's", "'", "''", '#', '@', 'a@b', '<', '>', '<1>',
              '->', ' -> ', '!', '=', '~', '*', '.', '..', 'a.b(c)', 'tab\there']
 STR_LOOKALIKE = ['nil', 'array', 'array[4]', 'fd 3', 'new id x@3', 'new id [unknown]#4', '-7', '0', '42', '1.5', '1,5',
-                 '-0.50000000', '1e5', 'wl_a@3', 'wl_a#3', 'x@1.y()', 'inf', 'nan']
+                 '-0.50000000', '1e5', 'wl_a@3', 'wl_a#3', 'x@1.y()', 'inf', 'nan',
+                 # what printf / other languages print for "nothing": still strings
+                 '(null)', 'null', '(nil)', 'NULL', 'None', '<null>', 'nil ', ' nil', 'true', 'false', '0x10', '#5', '@5', 'fd', 'new id', 'array[', '...', '[...]']
 STR_FRAGMENT = ['[1.0]  -> a@1.b(', '}  -> c@2.d(', '} x#2.y(', '[12.345] a@1.b()', '[1.000] {q} <2>  -> a#1.b(1)',
                 ' [5.0] z@9.q(', '<7> x#1.y(', '{z} <7>  -> x#1.y(', ']  -> a@1.b(']
 STR_UNI = ['żółć', '日本語', 'naïve café', '→ ↲', '───┤', 'emoji 😀', 'Ω, ω', ' nbsp']
